@@ -84,6 +84,37 @@ fn xtree_diff(a: &str, b: &str) -> String {
     )
 }
 
+/// A document too large for the model (S only, on the Rust side): `format_xml` returns, and the
+/// output has one element per node for the kinds counted. `large <doc input>` replays it.
+pub fn check_large(rep: &mut Report, o: &Opts, md: &str) {
+    use comrak::nodes::NodeValue;
+    let input = format!("large {}", Src::Doc(md.to_string()).input(o));
+    let c = o.to_comrak();
+    rep.s_evals += 1;
+    rep.count("large-documents");
+    let r = std::panic::catch_unwind(std::panic::AssertUnwindSafe(|| {
+        let arena = comrak::Arena::new();
+        let root = comrak::parse_document(&arena, md, &c);
+        let cells = root.descendants().filter(|n| matches!(n.data.borrow().value, NodeValue::TableCell)).count();
+        let rows = root.descendants().filter(|n| matches!(n.data.borrow().value, NodeValue::TableRow(_))).count();
+        let paras = root.descendants().filter(|n| matches!(n.data.borrow().value, NodeValue::Paragraph)).count();
+        let mut x = Vec::new();
+        let res = std::panic::catch_unwind(std::panic::AssertUnwindSafe(|| comrak::format_xml(root, &c, &mut x)));
+        (cells, rows, paras, res.is_ok(), x)
+    }));
+    match r {
+        Err(_) => rep.count("skipped-parse-panic"),
+        Ok((_, _, _, false, _)) => rep.fail("xml-total", "panic", input, "format_xml panicked on a parsed document".into()),
+        Ok((cells, rows, paras, true, x)) => {
+            let cnt = |pat: &[u8]| x.windows(pat.len()).filter(|w| *w == pat).count();
+            let got = (cnt(b"<table_cell"), cnt(b"<table_row"), cnt(b"<paragraph"));
+            if got != (cells, rows, paras) {
+                rep.fail("xml-mirrors-tree", SIG_ANY, input, format!("the tree has {} table cells, {} rows, {} paragraphs; the output has {:?} elements of these kinds", cells, rows, paras, got));
+            }
+        }
+    }
+}
+
 pub fn push_case<'a>(bt: &mut Batch<'a>, rep: &mut Report, o: Opts, src: Src, srcname: &'static str) {
     let input = src.input(&o);
     let r = match render(&src, &o) {
@@ -260,6 +291,12 @@ pub fn run(cfg: &Cfg, rep: &mut Report) {
         }
         bt.run(&m, rep);
     }
+    // tables that reach the auto-completion cap (the parser stops completing rows there)
+    for (cols, rows) in [(2000usize, 260usize), (700, 900)] {
+        let md = crate::gen::cell_cap_table(cols, rows);
+        check_large(rep, &Opts::all_extensions(), &md);
+        check_large(rep, &Opts::gfm().with("sourcepos", true), &md);
+    }
     let n = if cfg.tier_thorough { 120_000 } else if cfg.full { 30_000 } else { 5_000 };
     let mut done = 0;
     while done < n {
@@ -280,6 +317,14 @@ pub fn run(cfg: &Cfg, rep: &mut Report) {
 }
 
 pub fn replay(kind: &str, input: &str) -> Result<Option<String>, String> {
+    if let Some(rest) = input.strip_prefix("large ") {
+        let mut rep = Report::new("C09");
+        match Src::parse_input(rest) {
+            Some((o, Src::Doc(md))) => check_large(&mut rep, &o, &md),
+            _ => return Err("bad replay input".into()),
+        }
+        return Ok(rep.s_fail.first().map(|c| format!("{}: {}", c.kind, c.detail)));
+    }
     let (o, src) = Src::parse_input(input).ok_or("bad replay input")?;
     let m = Model::from_env();
     let mut rep = Report::new("C09");
